@@ -281,9 +281,9 @@ Proof.
 move=> l0 cn0; cbv zeta; rewrite /active_defaults.
 have l0' : 0 < lam%:R :> R by rewrite ltr0n.
 have pt := ptarg_formula_range (ltW l0').
-have five : kz RO 5 = 5%:R by rewrite /kz /= /ZtoR; congr (_%:R).
-have six : kz RO 6 = 6%:R by rewrite /kz /= /ZtoR; congr (_%:R).
-have ten : kz RO 10 = 10%:R by rewrite /kz /= /ZtoR; congr (_%:R).
+have five : kz RO 5 = 5%:R by rewrite kzE; congr (_%:R).
+have six : kz RO 6 = 6%:R by rewrite kzE; congr (_%:R).
+have ten : kz RO 10 = 10%:R by rewrite kzE; congr (_%:R).
 rewrite !ofnatE !c1E !c2E five six ten /=.
 have den : 0 < (dim * dim)%:R + 6%:R :> R by rewrite -natrD ltr0n addn_gt0 orbT.
 have den2 : 0 < dim%:R + 2%:R :> R by rewrite -natrD ltr0n addn_gt0 orbT.
